@@ -1,6 +1,7 @@
 package interp
 
 import (
+	"bytes"
 	"math"
 	"strconv"
 )
@@ -260,7 +261,13 @@ func verifC05Compare(ops []int, maxLen int, oneSided bool) {
 	if oneSided {
 		// one operand is an input-derived string of up to maxLen bytes, the other one of four fixed values
 		fixed := []value{null(), num(1), str("1"), numStr("1")}[kb]
-		long := numStr(verifString(verifIntRange(0, maxLen)))
+		var long value
+		if sp := verifIntRange(0, len(verifNumericSpellings)); sp < len(verifNumericSpellings) {
+			// spellings of numbers longer than the byte bound: signs, exponents, hex, infinities and NaNs, blanks
+			long = numStr(verifNumericSpellings[sp])
+		} else {
+			long = numStr(verifString(verifIntRange(0, maxLen)))
+		}
 		if ka%2 == 0 {
 			a, b = long, fixed
 		} else {
@@ -313,6 +320,35 @@ func verifC05Compare(ops []int, maxLen int, oneSided bool) {
 }
 
 // all six operators, short strings
+var verifNumericSpellings = []string{"inf", "INF", "Infinity", "nan", "NaN", "+inf", "-nan", "+nan", "0x1A", "0X.8p1", "1e3", "1E+2", ".5e-1", "5.", " 12 ", "\t-3\n", "1e", "0x", "infinit", "nano", "1_0", "+-1", "1 2"}
+
+// fields are numeric strings whatever happened to earlier records: the comparison mode of a field of the
+// second record depends on its own text only, also after a field of the first record was assigned
+func VerifC05FieldHistory() {
+	f2 := verifString(verifIntRange(0, 2))
+	for i := 0; i < len(f2); i++ {
+		verifAssume(f2[i] != ' ' && f2[i] != '\t' && f2[i] != '\n' && f2[i] != '\r' && f2[i] != '\v' && f2[i] != '\f' && f2[i] < 0x80)
+	}
+	verifAssume(f2 != "")
+	firsts := []string{`NR == 1 { $2 = "x" }`, `NR == 1 { $2 = "x"; $3 = "y"; NF = 1 }`, `NR == 1 { sub(/b/, "q", $2) }`, `NR == 1 { $0 = "p q"; $1 = "r" }`, `NR == 1 { n = $2 + 0 }`}
+	src := firsts[verifIntRange(0, len(firsts)-1)] + ` NR == 2 { r = ($2 < 9); s = ($2 == 10); t = ($1 == 1.0); u = $2 }`
+	input := []byte("a b c\n1 " + f2 + "\n")
+	cfg := &Config{Stdin: bytes.NewReader(input), Output: &bytes.Buffer{}, Error: &bytes.Buffer{}, Environ: []string{}}
+	_, err, p := verifRunProgram(src, cfg, nil)
+	verifAssert(err == nil, "run failed")
+	fv := numStr(f2)
+	strMode := verifRefTrueStr(fv)
+	var wantR, wantS bool
+	if strMode {
+		wantR, wantS = f2 < "9", f2 == "10"
+	} else {
+		wantR, wantS = fv.num() < 9, fv.num() == 10
+	}
+	verifReach("second-record")
+	verifAssert((verifGlobal(p, "r").n == 1) == wantR && (verifGlobal(p, "s").n == 1) == wantS && verifGlobal(p, "t").n == 1,
+		"a field of a later record is compared as a string (or number) because of what was done to an earlier record")
+}
+
 func VerifC05Compare() { verifC05Compare([]int{0, 1, 2, 3, 4, 5}, verifBound(1, 2), false) }
 
 // the typing rule on longer strings (blanks, signs, exponents), operators == and <
